@@ -5,10 +5,12 @@ from vlib.stubs import apply_common
 apply_common()
 from vlib.sel import sel, concrete
 import copy
+import logging
 import dill
 import formulas
 import models as M
 
+logging.disable(logging.CRITICAL)
 T = __T__
 SETS = M.override_sets()
 NS = len(SETS)
@@ -41,7 +43,7 @@ def mutate(m, op):
     if op < M.NOPS:
         M.apply_op(m, op)
     elif op == M.NOPS:
-        m.finish(complete=False)
+        m.finish()                      # completing and finishing a complete model again (on a copy: without its `cells`)
     else:
         m.calculate(inputs={P + 'A1': 77, M.BLOCK: [[9, 9], [9, 9]]})
 
